@@ -45,7 +45,11 @@ func init() {
 }
 
 // setHookMode must only be called while no query is running.
-func setHookMode(m int32) { hookMode = m }
+func setHookMode(m int32) {
+	if hookMode != m { // written once per child, before its first query
+		hookMode = m
+	}
+}
 
 func hookCounts() map[string]int {
 	out := map[string]int{}
